@@ -100,18 +100,8 @@ Definition cookie_round : list (side * mk) := [(Cl, KCh0); (Sv, KHs HVR)].
 Definition dflow (md : mode) (f : list (side * mk)) : Prop :=
   flow md f \/ (md_dtls md = true /\ exists f0, flow md f0 /\ f = cookie_round ++ f0).
 
-(* DTLS: ChangeCipherSpec carries no message_seq; the ChangeCipherSpec of a retransmitted flight cannot be told from a repeated
-   one, so consecutive ChangeCipherSpecs count once (retransmission is not a deviation of the message sequence) *)
-Fixpoint squash_ccs (l : list mk) : list mk :=
-  match l with
-  | KCcs :: ((KCcs :: _) as r) => squash_ccs r
-  | x :: r => x :: squash_ccs r
-  | [] => []
-  end.
-Definition dsquash (md : mode) (l : list mk) : list mk := if md_dtls md then squash_ccs l else l.
-
 Definition legal (md : mode) (l : list mk) : Prop :=
-  exists f, dflow md f /\ cauth_consistent md f /\ dsquash md l = received md f.
+  exists f, dflow md f /\ cauth_consistent md f /\ l = received md f.
 
 (* ---- the negotiated mode, read off the hello messages the receiver accepted (and its own configuration) *)
 Definition kind_of (i : item) : mk :=
